@@ -101,26 +101,27 @@ def r1_order(program, rep):
               for a, b in zip(order, order[1:]))
     rep.check(oko, "C09-R1", inst, "start, core selections, data, end - in "
               "that order within a fill", construct="fill order", node=fn)
-    # one pid, one fr
-    pid = [chain(sites[k].args[0]) for k in ("_send_ffs", "_send_ffd",
-                                            "_send_ffe")]
-    okp = len(set(pid)) == 1 and pid[0] is not None
+    # one pid, one fr: the same value terms at the start, data and end
+    # packets; the id is drawn inside the per-binary loop
+    TV = Terms(fn)
+
+    def argt(k, i):
+        return TV.term(sites[k].args[i], TV.cfg.node_containing(sites[k]))
+    pids = [argt(k, 0) for k in ("_send_ffs", "_send_ffd", "_send_ffe")]
+    okp = len(set(pids)) == 1 and pids[0][0] == "callv" and \
+        pids[0][1] == ("attr", ("param", "self"), "_get_next_nn_id")
     if okp:
-        defs = [tuple(d.id for d in fl.reaching(pid[0], nodes[k]))
-                for k in ("_send_ffs", "_send_ffd", "_send_ffe")]
-        d0 = fl.reaching(pid[0], nodes["_send_ffs"])
-        okp = len(set(defs)) == 1 and len(d0) == 1 and \
-            unparse(d0[0].value) == "self._get_next_nn_id()" and \
-            _inside(d0[0].node.ast, lp)
+        from ..terms import SITES
+        site_ = SITES.get(pids[0][-1])
+        okp = site_ is not None and _inside(site_, lp)
     rep.check(okp, "C09-R1", inst, "one fresh fill id per binary, used by "
               "its start, data and end packets", construct="fill id",
               node=fn)
-    frs = [unparse(sites["_send_ffs"].args[2]),
-           unparse(sites["_send_ffcs"].args[2]),
-           unparse(sites["_send_ffe"].args[3])]
+    frs = [plain(argt("_send_ffs", 2)), plain(argt("_send_ffcs", 2)),
+           plain(argt("_send_ffe", 3))]
     rep.check(len(set(frs)) == 1, "C09-R1", inst, "one forward/retry word "
-              "for the whole fill", construct="forward/retry %s" % frs,
-              node=fn)
+              "for the whole fill", construct="forward/retry %s" % (
+                  show(frs[0])[:60],), node=fn)
     # core selects iterate the sorted region list of this binary's targets
     cl = sites["_send_ffcs"]._parent
     while cl is not None and not isinstance(cl, ast.For):
@@ -141,12 +142,18 @@ def r1_order(program, rep):
     # data: the file's bytes, to sv.sdram_sys; end: the app id and flags
     dd = sites["_send_ffd"]
     de = sites["_send_ffe"]
-    okd = chain(dd.args[1]) == "aplx_data" and \
-        unparse(fl.reaching(chain(dd.args[2]), nodes["_send_ffd"])[0].value)\
-        == "self.read_struct_field('sv', 'sdram_sys', 255, 255)"
-    oke = [chain(a) for a in de.args[1:3]] == ["app_id", "flags"] and \
-        unparse(fl.reaching("app_id", nodes["_send_ffe"])[0].value) == \
-        "kwargs.pop('app_id')"
+    DATA = plain(argt("_send_ffd", 1))
+    ADDR = plain(argt("_send_ffd", 2))
+    okd = DATA[0] == "call" and DATA[1][0] == "attr" and \
+        DATA[1][2] == "read" and DATA[1][1][0] == "with" and \
+        DATA[1][1][1][0] == "call" and \
+        DATA[1][1][1][1] == ("global", "open") and \
+        ADDR == ("call", ("attr", ("param", "self"), "read_struct_field"),
+                 (("const", "sv"), ("const", "sdram_sys"), ("const", 255),
+                  ("const", 255)), ())
+    kwn = fn.args.kwarg.arg if fn.args.kwarg else None
+    oke = plain(argt("_send_ffe", 1)) == (
+        "call", ("attr", ("param", kwn), "pop"), (("const", "app_id"),), ())
     rep.check(okd and oke, "C09-R1", inst, "the data packets carry the "
               "file's bytes to the system SDRAM buffer; the end packet "
               "carries the caller's app id and the wait flag",
@@ -183,13 +190,26 @@ def _inside(node, anc):
     return False
 
 
+def _wp_len(expr):
+    e = ast.Call(func=ast.Name(id="len", ctx=ast.Load()), args=[expr],
+                 keywords=[])
+    e._parent = getattr(expr, "_parent", None)
+    ast.copy_location(e, expr)
+    ast.copy_location(e.func, expr)
+    e.func._parent = e
+    return e
+
+
 def r2_blocks(program, folder, rep, sites, ffl):
     fn = program.get(CTRL + ".flood_fill_aplx")
     inst = qual(fn)
     nb = sites["_send_ffs"].args[1]
     node = ffl.cfg.node_containing(sites["_send_ffs"])
     ffl.positive.add("self.scp_data_length")
-    L = ffl.sym(parse_expr("len(aplx_data)"), node)
+    # the length of what the data packets are cut from (the second argument
+    # of _send_ffd), whatever the local holding it is called
+    dsite = sites["_send_ffd"]
+    L = ffl.sym(_wp_len(dsite.args[1]), ffl.cfg.node_containing(dsite))
     D = Poly.atom("self.scp_data_length")
 
     def sym_t(t):
@@ -546,6 +566,12 @@ def r4_retry(program, rep):
         if b_.var != UNL[1].var or b_.mode != "assign" or \
                 not _inside(b_.node.ast, w) or \
                 plain(T._bind_term(b_)) != EMPTY:
+            continue
+        # (an empty map made in this very statement, {} or dict(): not the
+        # map built up elsewhere and bound here)
+        bt_ = T._bind_term(b_)
+        from ..terms import SITES as _SITES
+        if bt_[0] == "new" and _SITES.get(bt_[1]) is not b_.value:
             continue
         n_empty += 1
         f = [(plain(t), p_) for t, p_ in T.all_facts(b_.node)]
